@@ -293,6 +293,87 @@ def run_protein_scenario(sc):
         shutil.rmtree(wc, ignore_errors=True)
 
 
+def run_rollup_scenario(sc):
+    """sc: {seed, spell: 'same' | 'rel_abs', earlier: bool}.  The stand-alone rollup tool (brew_rollup) working IN PLACE: it reads the
+    peptide-level result files of the prefixed collections in a directory and writes its 'rollup.*' files into the same directory.
+    Dirty: an earlier rollup in that directory covered one more collection (since withdrawn: its files are gone, the earlier
+    'rollup.*' outputs are still there); the observed rollup names the directory once relatively and once absolutely.
+    Clean: the same collections' files in a fresh directory.  The tool's own earlier outputs are not its inputs."""
+    import argparse
+    import sys
+    import zlib
+    import mokapot  # noqa
+    import importlib
+    BR = sys.modules.get("mokapot.brew_rollup") or importlib.import_module("mokapot.brew_rollup")
+    mk.install_stub_pep()
+    rng = np.random.default_rng(sc["seed"])
+    wd = Path(tempfile.mkdtemp(prefix="c09r_"))
+    cwd = os.getcwd()
+    try:
+        colls, id0 = [], 0
+        for c in range(3):
+            # every collection keeps targets AND decoys at the peptide level (a result file without any row is F-03c's business)
+            rows = []
+            for k in range(int(rng.integers(5, 9))):
+                for tgt in (True, False):
+                    rows.append({"id": id0 + len(rows), "spec": 1 + len(rows), "key": [1 + len(rows)], "tgt": tgt, "rank": int(rng.integers(1, 13))})
+            colls.append({"rows": rows})
+            id0 += 100
+        case = {"colls": colls, "extra_levels": [], "dedup": True, "rollup": True, "decoys": True, "chunk": 5, "fmt": "pin",
+                "prefixes": ["a", "b", "c"], "workers": 1}
+        conf.run_assign(case, workdir=wd, keep=True)
+        out = wd / "out"
+        clean = wd / "clean"
+        clean.mkdir()
+        for fn in os.listdir(out):
+            if fn.startswith(("a.", "b.")):
+                shutil.copy(out / fn, clean / fn)
+
+        def roll(src, dest):
+            cfg = argparse.Namespace(level="peptide", src_dir=src, dest_dir=dest, file_root="rollup", peps_algorithm="stub",
+                                     qvalue_algorithm="tdc", seed=1, verbosity=0, suppress_warnings=True)
+            try:
+                BR.do_rollup(cfg)
+                return ""
+            except BaseException as e:
+                if isinstance(e, KeyboardInterrupt):
+                    raise
+                return "%s: %s" % (type(e).__name__, str(e)[:160])
+
+        def results(d):
+            files = []
+            for fn in sorted(os.listdir(d)):
+                if fn.startswith("rollup.") and ".temp." not in fn:
+                    with open(d / fn, "rb") as fh:
+                        files.append({"name": fn, "rows": sorted([0, zlib.crc32(line) & 0x3FFFFFFF, 0, 1] for line in fh)})
+            return files
+        if sc["earlier"]:
+            roll(out, out)                              # the earlier rollup: collections a, b, c
+        for fn in os.listdir(out):
+            if fn.startswith("c."):
+                os.unlink(out / fn)                     # collection c is withdrawn
+        os.chdir(wd)
+        if sc["spell"] == "rel_abs":
+            raised = roll(Path("out"), out.resolve())
+        else:
+            raised = roll(out, out)
+        os.chdir(cwd)
+        craised = roll(clean, clean)
+        # (the tool leaves its 'rollup.temp.<level>s' files behind also on the pinned tree; C09's last sentence is about confidence
+        # assignment, so they are listed as 'other' and the observation is recorded in DESIGN.md)
+        listing = [{"name": n, "kind": "result" if (n.startswith("rollup.") and ".temp." not in n) else "other", "pfx": "", "idx": 0, "ext": ""}
+                   for n in sorted(os.listdir(out))]
+        return {"kind": "assign", "last": {"pfx": "rollup.", "ext": "", "nchunks": 0},
+                "clean": {"raised": craised, "files": results(clean), "input_after": []},
+                "dirty": {"raised": raised, "files": results(out), "input_after": [], "listing": listing}}
+    except Exception as e:
+        import traceback
+        return {"harness_error": "%s: %s %s" % (type(e).__name__, e, traceback.format_exc()[-700:])}
+    finally:
+        os.chdir(cwd)
+        shutil.rmtree(wd, ignore_errors=True)
+
+
 def make_run(rng, k, prefix, fmt, idbase=0):
     """a run whose table is cut into exactly k chunks"""
     chunk = int(rng.integers(1, 4))
@@ -382,8 +463,12 @@ def run(ctx):
     pres = pmap(lambda i: run_protein_scenario(psc[i]), len(psc), chunk=1)
     for p in psc:
         ctx.count(("proteins", p["seed"], str(p["earlier"]), p["last"]))
+    rsc = [{"seed": int(ctx.seed * 10 + 500 + j), "spell": ["rel_abs", "same"][j % 2], "earlier": j % 3 != 2} for j in range(6 if ctx.quick else 40)]
+    rres = pmap(lambda i: run_rollup_scenario(rsc[i]), len(rsc), chunk=1)
+    for r_ in rsc:
+        ctx.count(("rolluptool", r_["seed"], r_["spell"], r_["earlier"]))
     traces = []
-    for i, t in enumerate(res + cres + pres):
+    for i, t in enumerate(res + cres + pres + rres):
         if "harness_error" in t:
             raise MachineryError("driver failed on scenario %d: %s" % (i, t["harness_error"]))
         t["tid"] = i + 1
@@ -410,6 +495,10 @@ def run(ctx):
                             "stale_chunks": sorted(e["name"] for e in t["dirty"]["listing"] if e["kind"] == "chunk")})
             elif i < len(scenarios) + len(cli):
                 ctx.reject({"cli": cli[i - len(scenarios)], "trace": t}, v["failed"], {"api": "cli_verify_pin", "case": i - len(scenarios)})
+            elif i >= len(scenarios) + len(cli) + len(psc):
+                r_ = rsc[i - len(scenarios) - len(cli) - len(psc)]
+                ctx.reject({"rolluptool": r_, "trace": {"dirty_raised": t["dirty"]["raised"], "names": [f["name"] for f in t["dirty"]["files"]]}}, v["failed"],
+                           {"api": "brew_rollup in place", "spell": r_["spell"], "earlier": r_["earlier"], "dirty_raised": t["dirty"]["raised"].split(":")[0]})
             else:
                 p = psc[i - len(scenarios) - len(cli)]
                 ctx.reject({"proteins": p, "trace": {"listing": t["dirty"]["listing"], "dirty_raised": t["dirty"]["raised"]}}, v["failed"],
@@ -452,7 +541,8 @@ def run(ctx):
 
 def replay(ctx, case):
     c = case["case"]
-    t = run_scenario(c["scenario"]) if "scenario" in c else run_protein_scenario(c["proteins"]) if "proteins" in c else run_cli(c["cli"])
+    t = (run_scenario(c["scenario"]) if "scenario" in c else run_protein_scenario(c["proteins"]) if "proteins" in c
+         else run_rollup_scenario(c["rolluptool"]) if "rolluptool" in c else run_cli(c["cli"]))
     t["tid"] = 1
     v = ctx.validate("WorkdirTrace", "Trace.cfg", [t])[1]
     if not v["accept"]:
